@@ -187,10 +187,23 @@ class ControlledPool:
         except EOFError:
             raise ScheduleMismatch(f"worker {w} died")
 
+    def _task_file(self, args) -> str:
+        """The file a task is about: the first path inside the tree among its (possibly nested) arguments."""
+        stack = list(args) if isinstance(args, (tuple, list)) else [args]
+        while stack:
+            a = stack.pop(0)
+            if isinstance(a, (tuple, list)):
+                stack = list(a) + stack
+            elif isinstance(a, (str, os.PathLike)):
+                path = os.path.realpath(os.fspath(a))
+                if path.startswith(self.root + os.sep):
+                    return os.path.relpath(path, self.root)
+        return "?"
+
     def _run(self, func: Callable, tasks: List[tuple], unordered: bool = False) -> List[Any]:
         self.pass_no += 1
         steps = list(self.schedule[self.pass_no - 1]) if self.pass_no <= len(self.schedule) else []
-        plog = {"tasks": [os.path.relpath(os.path.realpath(str(t[0])), self.root) if t else "?" for t in tasks],
+        plog = {"tasks": [self._task_file(t) for t in tasks],
                 "events": [], "assign": [], "order": [], "beyond_schedule": self.pass_no > len(self.schedule)}
         self.log["passes"].append(plog)
         queue = list(range(len(tasks)))
